@@ -6,11 +6,19 @@ whole remote, remove a whole lane, remove everything, count events, take snapsho
 only side condition (`Admissible`) is the one the code guarantees: a reporter is registered for a lane at the moment
 the lane is registered, i.e. while nothing is linked to it.
 Model = the code after the `fix:` commits (the lane entry with its reporter survives `remove_remote`; responses for
-removed remotes are discarded). The composition with the rest of the write task is tied to the real
-`WriteTaskState` + real `UplinkReporter`/`UplinkReportReader` by the `wt` engine (snapshots compared, and checked
-against a reference link set by the monitor).
+removed remotes are discarded).
+The second half lifts everything to the WHOLE write task (`WT.step` / `WT.run`, every event sequence): each step
+performs an admissible sequence of registry operations (`C20_step_is_registry_ops`), so `LInv` holds in every reached
+state (`C20_write_task_links_partial`) — under the one assumption the statement needs and the runtime guarantees:
+a response addressed to a remote comes from a registered lane (`envOk`; without it the statement is false,
+`C20_write_task_links_fails`, for the model and for the real `WriteTaskState` alike). The event counters are
+accounted for exactly (`C20_wt_counts_conserved`, `C20_wt_lane_counts_conserved`), and under the runtime's
+discipline (`liveOk`) every response handed to a remote is counted exactly once by the lane's reporter and once by the
+aggregate reporter (`C20_wt_every_response_counted_once`).
+The model is tied to the real `WriteTaskState` + real `UplinkReporter`/`UplinkReportReader` by the `wt` engine
+(snapshots compared, and checked against a reference link set by the monitor).
 -/
-import SwimVerif.Proofs.LinksEvents
+import SwimVerif.Proofs.LinksWTCount
 
 set_option linter.unusedVariables false
 namespace SwimVerif.WT
@@ -61,10 +69,124 @@ theorem C20_reporter_survives_remote_removal (l : Links) (r id : Nat) (e : LaneL
     rw [updEntry_forward, alGet_alSet_same]
   · exact ⟨e, he, rfl⟩
 
-/-! Open: every run of the write task (`WT.step`) performs an `Admissible` sequence of registry operations, so the
-theorems above hold for `(run {} evs).links`. Tied by the `wt` correspondence engine and the monitor. -/
-def C20_write_task_links_open : Prop :=
+/-! ## The whole write task -/
+
+/-- The registry as the write task sees it after the events `evs` (`agg`: introspection on). -/
+def wreach (agg : Bool) (evs : List Ev) : Links := (run { links := { hasAgg := agg } } evs).links
+
+/-- **One iteration of the write-task loop = an admissible sequence of registry operations**: whatever the rest of
+the state (remotes, queues, writes in flight), `step` changes `s.links` exactly by `stepOps s e`, and the only
+`register_reporter` among them is for the lane id being assigned, to which nothing is linked yet. -/
+theorem C20_step_is_registry_ops (s : St) (e : Ev) :
+    (step s e).1.links = lrun s.links (stepOps s e) ∧ (NoUnreg s → Admissible s.links (stepOps s e)) :=
+  ⟨(step_links_reg s e).1, fun hu => stepOps_admissible hu e⟩
+
+/-- The statement for EVERY event sequence — false: the event alphabet of the model (like the signature of
+`WriteTaskState::handle_event`) admits a response from a lane id that is registered only later. -/
+def C20_write_task_links : Prop :=
   ∀ (evs : List Ev) (agg : Bool), LInv (run { links := { hasAgg := agg } } evs).links
+
+/-- Witness: a remote attaches, a response addressed to it arrives for lane id 0 (implicit link), then the lane with
+id 0 is registered with a reporter — the fresh reporter is never told about the link: it reports 0, 1 is linked.
+The real `WriteTaskState` does the same (replayed: `corpus/C20/wt-unregistered-lane.ops`, snapshot `l0=0/0` with
+remote 1 linked to lane 0); the runtime cannot produce this input (lane ids come from registered lanes' streams). -/
+theorem C20_write_task_links_fails : ¬ C20_write_task_links := by
+  intro h
+  have hl := (h [.attach 0, .event 0 (some 0) (.synced .value), .lane 0 true] true).r.lane 0 ⟨[0], true⟩ rfl rfl
+  obtain ⟨c, hc, hn⟩ := hl
+  have hc' : some (⟨0, 0⟩ : Counters) = some c := hc
+  cases hc'
+  simp at hn
+
+/-- **The link registry of the write task is consistent in every reached state** — for every event sequence in
+which responses addressed to a remote come from registered lanes: reporters' link counts equal the sizes of the remote
+sets, the aggregate equals the running total, the total equals the sum over the lanes, keys and remotes are
+duplicate-free. -/
+theorem C20_write_task_links_partial (evs : List Ev) (agg : Bool)
+    (hok : envOk { links := { hasAgg := agg } } evs = true) :
+    LInv (run { links := { hasAgg := agg } } evs).links :=
+  (winv_run evs _ (winv_init agg) (envOk_EnvOk evs _ hok)).l
+
+/-- **Reported = actual, per lane, in the write task.** -/
+theorem C20_wt_lane_count_is_actual (evs : List Ev) (agg : Bool)
+    (hok : envOk { links := { hasAgg := agg } } evs = true)
+    (id : Nat) (e : LaneLinks) (he : alGet (wreach agg evs).forward id = some e) (hr : e.hasReporter = true) :
+    ∃ c, alGet (wreach agg evs).lane id = some c ∧ c.links = (wreach agg evs).actual id := by
+  obtain ⟨c, hc, hl⟩ := (C20_write_task_links_partial evs agg hok).r.lane id e he hr
+  refine ⟨c, hc, ?_⟩
+  simp only [Links.actual, Links.linkedFrom, he]
+  exact hl
+
+/-- **Reported = actual, aggregate, in the write task**: the agent-level count is the running total = the number of
+links that exist. -/
+theorem C20_wt_aggregate_is_actual (evs : List Ev) (agg : Bool)
+    (hok : envOk { links := { hasAgg := agg } } evs = true) :
+    ((wreach agg evs).hasAgg = true → (wreach agg evs).agg.links = sumLinks (wreach agg evs).forward) ∧
+    (wreach agg evs).total = sumLinks (wreach agg evs).forward := by
+  have h := C20_write_task_links_partial evs agg hok
+  exact ⟨fun hh => (h.r.agg hh).trans h.t.total, h.t.total⟩
+
+/-- Each link of the write task is registered (and counted) once. -/
+theorem C20_wt_links_counted_once (evs : List Ev) (agg : Bool)
+    (hok : envOk { links := { hasAgg := agg } } evs = true) :
+    (keysOf (wreach agg evs).forward).Nodup ∧
+    ∀ id e, alGet (wreach agg evs).forward id = some e → e.remotes.Nodup :=
+  ⟨(C20_write_task_links_partial evs agg hok).t.keys, (C20_write_task_links_partial evs agg hok).t.nodup⟩
+
+/-- **Aggregate event counter, exact accounting for every event sequence**: what the snapshots returned + what is
+still in the counter + the responses routed uncounted = the responses handed to remotes (`push_write` calls).
+`missed` is explicit: a response addressed to a remote from a lane that has no registry entry at that moment
+(`count_single` runs before the implicit link creates the entry), or any response when there is no aggregate
+reporter. -/
+theorem C20_wt_counts_conserved (evs : List Ev) (agg : Bool) :
+    wtSnapAgg { links := { hasAgg := agg } } evs + (wreach agg evs).agg.events
+      + wtMissed { links := { hasAgg := agg } } evs = wtRouted { links := { hasAgg := agg } } evs := by
+  have := run_agg_events evs { links := { hasAgg := agg } }
+  simpa [wreach] using this
+
+/-- **Event counter of one lane, exact accounting** (responses addressed to a remote come from registered lanes):
+snapshots of the lane's reader + residual + routed uncounted = responses of that lane handed to remotes. -/
+theorem C20_wt_lane_counts_conserved (evs : List Ev) (agg : Bool) (id : Nat)
+    (hok : envOk { links := { hasAgg := agg } } evs = true) :
+    wtSnapLane id { links := { hasAgg := agg } } evs + (wreach agg evs).laneEv id
+      + wtMissedLane id { links := { hasAgg := agg } } evs = wtRoutedLane id { links := { hasAgg := agg } } evs := by
+  have := run_lane_events id evs { links := { hasAgg := agg } } (fresh_init agg) (envOk_EnvOk evs _ hok)
+  simpa [wreach, Links.laneEv] using this
+
+/-- **Every response handed to a remote is counted exactly once** by the aggregate reporter and once by its lane's
+reporter — with introspection on, every lane registered with a reporter, and lanes producing responses only between
+their registration and their failure (`liveOk`, what the agent runtime does): the sum of all snapshots taken plus
+what is still in the counter equals the number of responses routed to remotes, in aggregate and lane by lane. -/
+theorem C20_wt_every_response_counted_once (evs : List Ev) (hl : liveOk 0 [] evs = true) :
+    wtSnapAgg { links := { hasAgg := true } } evs + (wreach true evs).agg.events
+      = wtRouted { links := { hasAgg := true } } evs ∧
+    ∀ id, wtSnapLane id { links := { hasAgg := true } } evs + (wreach true evs).laneEv id
+      = wtRoutedLane id { links := { hasAgg := true } } evs := by
+  have hm := live_no_miss evs 0 [] { links := { hasAgg := true } } (live_init true) rfl hl
+  have hok := live_envOk evs 0 [] { links := { hasAgg := true } } (live_init true) hl
+  constructor
+  · have := run_agg_events evs { links := { hasAgg := true } }
+    rw [hm.1] at this
+    simpa [wreach] using this
+  · intro id
+    have := run_lane_events id evs { links := { hasAgg := true } } (fresh_init true) hok
+    rw [hm.2 id] at this
+    simpa [wreach, Links.laneEv] using this
+
+/-- With introspection on and every lane holding a reporter nothing is routed uncounted … -/
+theorem C20_wt_nothing_missed (evs : List Ev) (hl : liveOk 0 [] evs = true) :
+    wtMissed { links := { hasAgg := true } } evs = 0 ∧ ∀ id, wtMissedLane id { links := { hasAgg := true } } evs = 0 :=
+  live_no_miss evs 0 [] _ (live_init true) rfl hl
+
+/-- … but a lane registered WITHOUT a reporter (reporter registration failed) has no registry entry until the first
+link, and its first response addressed to a remote is routed without the aggregate reporter being told: two responses
+routed, one counted (same in the real code: `corpus/C20/wt-uncounted-first-response.ops`, snapshot `agg=1/1`). -/
+theorem C20_wt_first_response_uncounted :
+    wtRouted { links := { hasAgg := true } }
+      [.lane 0 false, .attach 1, .event 0 (some 1) (.synced .value), .event 0 (some 1) (.synced .value)] = 2 ∧
+    (wreach true [.lane 0 false, .attach 1, .event 0 (some 1) (.synced .value),
+      .event 0 (some 1) (.synced .value)]).agg.events = 1 := by
+  decide
 
 /-! Non-vacuity -/
 example : Admissible { hasAgg := true } [.register 0, .insert 0 1, .insert 0 2, .removeRemote 1, .insert 0 3] := by
@@ -72,6 +194,23 @@ example : Admissible { hasAgg := true } [.register 0, .insert 0 1, .insert 0 2, 
 example : (lreach true [.register 0, .insert 0 1, .insert 0 2, .removeRemote 1, .removeRemote 2, .insert 0 3]).lane
     = [(0, ⟨1, 0⟩)] := by decide
 example : (lreach true [.register 0, .insert 0 1, .countBroadcast 0, .snapshot, .countSingle 0]).agg = ⟨1, 1⟩ := by
+  decide
+
+/-- a write-task run with two lanes, two remotes, links, broadcasts, a targeted response with implicit link, a write
+failure that removes a remote, snapshots, a lane failure and the shutdown epilogue -/
+def exRun : List Ev :=
+  [.lane 5 true, .lane 6 true, .attach 1, .attach 2, .link 1 5, .link 2 5, .event 0 none (.value [1]),
+   .event 1 (some 2) (.synced .supply), .snapshot, .done 1 true, .event 0 none (.value [2]), .done 2 false,
+   .event 0 none (.value [3]), .laneFailed 1, .snapshot, .unlink 1 5, .stop]
+
+example : envOk { links := { hasAgg := true } } exRun = true := by decide
+example : liveOk 0 [] exRun = true := by decide
+example : stepOps (run { links := { hasAgg := true } } (exRun.take 7)) (.event 1 (some 2) (.synced .supply))
+    = [.countSingle 1, .insert 1 2] := rfl
+example : ((wreach true (exRun.take 11)).lane, (wreach true (exRun.take 11)).agg) = ([(0, ⟨2, 2⟩), (1, ⟨1, 0⟩)], ⟨3, 2⟩) := by
+  decide
+example : wtRouted { links := { hasAgg := true } } exRun = 6 ∧ wtSnapAgg { links := { hasAgg := true } } exRun = 6 ∧
+    wtRoutedLane 0 { links := { hasAgg := true } } exRun = 5 ∧ wtSnapLane 0 { links := { hasAgg := true } } exRun = 5 := by
   decide
 
 end SwimVerif.WT
